@@ -1,9 +1,138 @@
-(* Props/C08.v — the property theorems for C08.  Only statements, `exact <lemma>` and Print Assumptions. *)
-From Coq Require Import ZArith List Bool.
-From BNP Require Import Base.Prims Model.C08 Proofs.C08.
+(* Props/C08.v — the property theorems for C08 (interval-set operations equal their per-base definitions).
+   Only statements, `exact <lemma>` and Print Assumptions live here.  All statements are for unbounded
+   contig sizes and interval counts.  [cov I x] is the number of intervals of I covering base x. *)
+From Coq Require Import ZArith List Bool Permutation.
+From BNP Require Import Base.Prims Model.C08 Proofs.C08 Proofs.C08_merge Proofs.C08_overlap Proofs.C08_sim Proofs.C08_bg.
 Import ListNotations.
 Open Scope Z_scope.
 
+(* T1: the pileup equals the number of intervals covering each base — nested, duplicated, touching, empty
+   intervals, intervals at 0 and at the last base, the empty set. *)
+Theorem C08_pileup_is_coverage :
+  forall I L, 0 <= L -> (forall i, In i I -> 0 <= fst i /\ fst i <= snd i /\ snd i <= L) ->
+  pileup_model I L = pileup_spec I L.
+Proof. exact pileup_is_coverage. Qed.
+Print Assumptions C08_pileup_is_coverage.
+
+(* T1': the same for bedgraph.get_pileup (its own sort / accumulate / drop-empty-runs code); it never trips its assertion. *)
+Theorem C08_bg_pileup_is_coverage :
+  forall I L, 0 <= L -> (forall i, In i I -> 0 <= fst i /\ fst i <= snd i /\ snd i <= L) ->
+  bg_pileup_model I L = Some (pileup_spec I L).
+Proof. exact bg_pileup_is_coverage. Qed.
+Print Assumptions C08_bg_pileup_is_coverage.
+
+(* T2: the boolean mask is "coverage > 0" (input in any order). *)
+Theorem C08_mask_is_positive_coverage :
+  forall I size, 0 <= size -> (forall i, In i I -> fst i < snd i /\ 0 <= fst i /\ snd i <= size) ->
+  mask_model I size = Some (mask_spec I size).
+Proof. exact mask_is_positive_coverage. Qed.
+Print Assumptions C08_mask_is_positive_coverage.
+
+(* T3: merging sorted intervals with distance d >= 0 returns the maximal runs of the union, consecutive runs
+   joined whenever the gap between them is at most d bases (d = 0: touching intervals are joined). *)
+Theorem C08_merge_bridged_runs :
+  forall d I size, 0 <= d -> 0 <= size ->
+  sortedb Z.leb (map fst I) = true -> (forall i, In i I -> fst i < snd i /\ 0 <= fst i /\ snd i <= size) ->
+  merge_model d I = Some (merge_spec d I size).
+Proof. intros d I size Hd Hs H1 H2. exact (merge_bridged_runs d I size Hd Hs (conj H1 H2)). Qed.
+Print Assumptions C08_merge_bridged_runs.
+
+(* T3a: merging with distance 0 returns exactly the maximal runs of positive coverage (touching intervals joined). *)
+Theorem C08_merge0_maximal_runs :
+  forall I size, 0 <= size ->
+  sortedb Z.leb (map fst I) = true -> (forall i, In i I -> fst i < snd i /\ 0 <= fst i /\ snd i <= size) ->
+  merge_model 0 I = Some (merge_spec 0 I size).
+Proof. intros I size Hs H1 H2. exact (merge0_maximal_runs I size Hs (conj H1 H2)). Qed.
+Print Assumptions C08_merge0_maximal_runs.
+
+(* T3b: merging with any distance d >= 0 returns the maximal runs of the union of the intervals extended d
+   bases to the right, with the d bases taken off again — i.e. gaps of at most d bases are bridged. *)
+Theorem C08_merge_maximal_runs :
+  forall d I size, 0 <= d -> 0 <= size ->
+  sortedb Z.leb (map fst I) = true -> (forall i, In i I -> fst i < snd i /\ 0 <= fst i /\ snd i <= size) ->
+  merge_model d I = Some (merge_spec2 d I size).
+Proof. intros d I size Hd Hs H1 H2. exact (merge_maximal_runs d I size Hd Hs (conj H1 H2)). Qed.
+Print Assumptions C08_merge_maximal_runs.
+
+(* T3c: relational reading — the result never fails its assertions, consecutive results are more than d apart,
+   each is non-empty and inside the contig, and for d = 0 it covers exactly the covered bases. *)
+Theorem C08_merge_relational :
+  forall d I size, 0 <= d -> 0 <= size ->
+  sortedb Z.leb (map fst I) = true -> (forall i, In i I -> fst i < snd i /\ 0 <= fst i /\ snd i <= size) ->
+  exists out, merge_model d I = Some out /\ sep d out
+    /\ (forall o, In o out -> fst o < snd o /\ 0 <= fst o /\ snd o <= size)
+    /\ (d = 0 -> forall x, covered out x = covered I x).
+Proof. intros d I size Hd Hs H1 H2. exact (merge_relational d I size Hd Hs (conj H1 H2)). Qed.
+Print Assumptions C08_merge_relational.
+
+(* T4a: overlap counting through independently sorted starts and stops is sum_x max(cov(A ++ B) x - 1, 0) ... *)
+Theorem C08_count_overlap_identity :
+  forall A B size, (forall i, In i (A ++ B) -> 0 <= fst i /\ fst i <= snd i /\ snd i <= size) ->
+  count_overlap_model A B = overlap_spec A B size.
+Proof. exact count_overlap_identity. Qed.
+Print Assumptions C08_count_overlap_identity.
+(* ... which is the number of bases in both A and B when neither set overlaps itself. *)
+Theorem C08_count_overlap_disjoint :
+  forall A B size, (forall i, In i (A ++ B) -> 0 <= fst i /\ fst i <= snd i /\ snd i <= size) ->
+  disjointb A size = true -> disjointb B size = true ->
+  count_overlap_model A B = overlap_sets_spec A B size.
+Proof. intros A B size H HA HB. rewrite (count_overlap_identity A B size H). exact (overlap_disjoint A B size HA HB). Qed.
+Print Assumptions C08_count_overlap_disjoint.
+
+(* T4b: the pieces returned by intersect cover every base x exactly max(cov(A ++ B) x - 1, 0) times
+   (= 1 on the bases in both sets and 0 elsewhere when neither set overlaps itself). *)
+Theorem C08_intersect_coverage :
+  forall A B x, (forall i, In i (A ++ B) -> fst i <= snd i) ->
+  cov (intersect_model A B) x = Z.max (cov (A ++ B) x - 1) 0.
+Proof. exact intersect_coverage. Qed.
+Print Assumptions C08_intersect_coverage.
+Theorem C08_intersect_disjoint :
+  forall A B x, (forall i, In i (A ++ B) -> fst i <= snd i) -> cov A x <= 1 -> cov B x <= 1 ->
+  cov (intersect_model A B) x = b2z (covered A x && covered B x).
+Proof. intros A B x H HA HB. rewrite (intersect_coverage A B x H). exact (excess_disjoint A B x HA HB). Qed.
+Print Assumptions C08_intersect_disjoint.
+
+(* T5: sorting (key / sort_order route) returns a permutation ordered by (chromosome rank, start, stop). *)
+Theorem C08_sort_perm :
+  forall I, Permutation (sort_full_model I) I /\ sortedb key3_leb (sort_full_model I) = true.
+Proof. exact sort_full_ok. Qed.
+Print Assumptions C08_sort_perm.
+(* the StringEncoding (lexsort) route as it is at the pinned commit: a permutation ordered by (chromosome, start)
+   only — the full statement is refuted by two intervals with equal start; with notes/C08.fix-1.diff it holds *)
+Theorem C08_sort_lex_partial :
+  forall I, Permutation (sort_lex_pinned I) I /\ sortedb key2_leb (sort_lex_pinned I) = true.
+Proof. exact sort_lex_pinned_ok. Qed.
+Print Assumptions C08_sort_lex_partial.
+Theorem C08_sort_lex_refuted : exists I, sort_spec_ok I (sort_lex_pinned I) = false.
+Proof. exact sort_lex_pinned_refuted. Qed.
+Print Assumptions C08_sort_lex_refuted.
+Theorem C08_sort_lex_fixed :
+  forall I, Permutation (sort_lex_fixed I) I /\ sortedb key3_leb (sort_lex_fixed I) = true.
+Proof. exact sort_lex_fixed_ok. Qed.
+Print Assumptions C08_sort_lex_fixed.
+
+(* T6a: clipping.  Pinned code: inside the contig and covering the same bases of the contig, provided the
+   interval meets the contig; refuted for an interval lying beyond the contig end; the repaired clip
+   (notes/C08.fix-2.diff) satisfies the statement without the guard. *)
+Theorem C08_clip_inside_partial :
+  forall size i, 0 <= size -> fst i <= snd i -> fst i <= size -> 0 <= snd i ->
+  let o := clip_pinned size i in
+  0 <= fst o /\ fst o <= snd o /\ snd o <= size /\ forall x, 0 <= x < size -> covers x o = covers x i.
+Proof. exact clip_pinned_ok. Qed.
+Print Assumptions C08_clip_inside_partial.
+Theorem C08_clip_inside_refuted :
+  exists size i, 0 <= size /\ fst i <= snd i /\ ~ (fst (clip_pinned size i) <= snd (clip_pinned size i) <= size).
+Proof. exact clip_pinned_refuted. Qed.
+Print Assumptions C08_clip_inside_refuted.
+Theorem C08_clip_inside_fixed :
+  forall size i, 0 <= size -> fst i <= snd i ->
+  let o := clip_fixed size i in
+  0 <= fst o /\ fst o <= snd o /\ snd o <= size /\ forall x, 0 <= x < size -> covers x o = covers x i.
+Proof. exact clip_fixed_ok. Qed.
+Print Assumptions C08_clip_inside_fixed.
+
+(* T6b: strand-aware extension stays inside the contig; + keeps the start, - keeps the stop, and the length is
+   min(fragment length, what the contig leaves). *)
 Theorem C08_extend_inside :
   forall size frag t,
   0 <= frag -> (t_tag t = 0 \/ t_tag t = 1) -> 0 <= t_start t -> t_start t <= t_stop t -> t_stop t <= size ->
@@ -13,3 +142,37 @@ Theorem C08_extend_inside :
   (t_tag t = 0 -> t_stop o = t_stop t /\ t_stop o - t_start o = Z.min frag (t_stop t)).
 Proof. exact extend_one_ok. Qed.
 Print Assumptions C08_extend_inside.
+
+(* T7: Jaccard, Forbes (as exact fractions) and unique_intersect equal the values computed from coverage. *)
+Theorem C08_jaccard_per_base :
+  forall A B size, 0 <= size -> wf_set A size -> wf_set B size ->
+  jaccard_model A B size = Some (jaccard_spec A B size).
+Proof. exact jaccard_is_per_base. Qed.
+Print Assumptions C08_jaccard_per_base.
+Theorem C08_forbes_per_base :
+  forall A B size, 0 <= size -> wf_set A size -> wf_set B size ->
+  forbes_model A B size = Some (forbes_spec A B size).
+Proof. exact forbes_is_per_base. Qed.
+Print Assumptions C08_forbes_per_base.
+Theorem C08_unique_intersect_per_base :
+  forall A B size, 0 <= size -> wf_set B size -> (forall a, In a A -> 0 <= fst a /\ snd a <= size) ->
+  unique_intersect_model A B size = Some (unique_intersect_spec A B).
+Proof. exact unique_intersect_is_per_base. Qed.
+Print Assumptions C08_unique_intersect_per_base.
+
+(* non-vacuity: concrete inputs meeting the hypotheses, on which the executable model returns the expected,
+   non-trivial values (nested + duplicated + touching intervals, an interval ending at the last base) *)
+Example C08_nonvacuous_pileup :
+  pileup_model [(3, 8); (5, 7); (5, 7); (8, 10); (0, 2)] 10 = [1; 1; 0; 1; 1; 3; 3; 1; 1; 1].
+Proof. vm_compute. reflexivity. Qed.
+Example C08_nonvacuous_merge :
+  merge_model 2 [(0, 2); (1, 3); (5, 6); (9, 10)] = Some [(0, 6); (9, 10)]
+  /\ merge_spec 2 [(0, 2); (1, 3); (5, 6); (9, 10)] 10 = [(0, 6); (9, 10)]
+  /\ merge_spec2 2 [(0, 2); (1, 3); (5, 6); (9, 10)] 10 = [(0, 6); (9, 10)]
+  /\ merge_model 0 [(0, 2); (2, 4); (5, 6)] = Some [(0, 4); (5, 6)].
+Proof. vm_compute. repeat split; reflexivity. Qed.
+Example C08_nonvacuous_overlap :
+  count_overlap_model [(0, 3); (2, 5)] [(1, 4)] = 4 /\ overlap_spec [(0, 3); (2, 5)] [(1, 4)] 6 = 4
+  /\ intersect_model [(0, 3); (4, 6)] [(1, 5)] = [(1, 3); (4, 5)]
+  /\ jaccard_model [(0, 3); (4, 6)] [(1, 5)] 10 = Some (3, 6) /\ forbes_model [(0, 3); (4, 6)] [(1, 5)] 10 = Some (30, 20).
+Proof. vm_compute. repeat split; reflexivity. Qed.
